@@ -102,3 +102,44 @@ Lemma canonical_order_is_a_schedule_witness :
     traces (graph_prog is_stream g ginf opts stages) (graph_ops is_stream g ginf opts stages).
 Proof. intros. split; [apply flatten_graph_prog | apply graph_ops_is_a_schedule]. Qed.
 
+
+(* F-C10c (repaired by db1b29b): a tool call naming a tool the ToolsNode does not have is answered by
+   the UnknownToolsHandler; before the repair its runnable was built with callback injection off, so
+   the call's context was created (ReuseHandlers with the tool's run info) and no On followed *)
+Definition call_ops_unknown_v0 (tn : ukey) (c : ukey * info * N * bool) : list op :=
+  let '(cu, cinf, _, _) := c in [OReuse tn cu cinf].
+
+Lemma unknown_tool_call_v0_refuted_witness :
+  exists (w : world) (is_stream : bool) (pre : list op) (tn : ukey) (c : ukey * info * N * bool),
+    let cu := fst (fst (fst c)) in
+    (* the handlers that apply to the tool call: those of the ToolsNode *)
+    observed_list (run_script true w (pre ++ call_ops is_stream tn c)) cu = Some [1] /\
+    (* the call as it is executed now: start and end, with the tool's run info *)
+    filter (of_unit cu) (st_log (run_script true w (pre ++ call_ops is_stream tn c))) =
+      [Ev cu 1 TStart 7; Ev cu 1 TEnd 7] /\
+    (* before the repair: the same handlers applied, none was invoked *)
+    observed_list (run_script true w (pre ++ call_ops_unknown_v0 tn c)) cu = Some [1] /\
+    filter (of_unit cu) (st_log (run_script true w (pre ++ call_ops_unknown_v0 tn c))) = [].
+Proof.
+  exists (w_plain []), false, [ORaw 0 100 0%nat [1] 0%nat], 0, (5, 7, 1, false).
+  vm_compute. repeat split; reflexivity.
+Qed.
+
+(* F-C10d (repaired by 31b7668): a component that panics. Before the repair the injected callbacks
+   fired the start and then nothing (the panic left runWithCallbacks before any end callback) *)
+Definition lambda_ops_panic_v0 (is_stream : bool) (parent : ukey) (opts : list copt) (uid : ukey) (key : N)
+           (inf : info) (natives : N) : list op :=
+  [OAppend (Some parent) uid inf (designated key opts); OOn uid (start_timing_of (pick_native is_stream natives))].
+
+Lemma panicking_unit_v0_refuted_witness :
+  exists (w : world) (pre : list op) (opts : list copt),
+    (* the node as it is executed now (fails = true: an error or a contained panic): start ++ error *)
+    filter (of_unit 2) (st_log (run_script true w (pre ++ fst (node_ops false 0 opts (GLambda 2 1 2 1 true))))) =
+      [Ev 2 4 TStart 2; Ev 2 1 TStart 2; Ev 2 1 TError 2; Ev 2 4 TError 2] /\
+    (* before the repair: the starts, and no end of any kind *)
+    filter (of_unit 2) (st_log (run_script true w (pre ++ lambda_ops_panic_v0 false 0 opts 2 1 2 1))) =
+      [Ev 2 4 TStart 2; Ev 2 1 TStart 2].
+Proof.
+  exists (w_plain []), [ORaw 0 100 0%nat [1] 0%nat], [([4], [[1]])].
+  vm_compute. split; reflexivity.
+Qed.
